@@ -1331,8 +1331,17 @@ impl<'a> GeneratorState<'a> {
                 self.generate_load_store_statement(&param, code.pos, false)?;
             }
             Statement::Load(e) => {
-                let param = self.generate_expr(e, code.pos, false, false)?;
+                // The whole computation is the explicit load: nothing of it may be optimized out
+                self.protected = true;
+                let param = self.generate_expr(e, code.pos, false, false);
+                self.protected = false;
+                let param = param?;
                 self.generate_load_store_statement(&param, code.pos, true)?;
+                // The accumulator is loaded for a later store(): no expression is pending, and the
+                // processor flags now describe the loaded value
+                self.acc_in_use = false;
+                self.flags = FlagsState::Unknown;
+                self.carry_flag_ok = false;
             }
             Statement::CSleep(s) => {
                 self.generate_csleep_statement(*s, code.pos)?;
